@@ -737,8 +737,13 @@ pub fn import_err_code(e: &import::ImportError) -> u8 {
 
 /// import::import(Csv) + to_double_entry + the printing of ImportCmd::run
 pub fn run_import(csv: &str, entry: &config::ConfigEntry) -> ImpObs {
+    run_import_fmt(csv, import::Format::Csv, entry)
+}
+
+/// import::import(format) + to_double_entry + the printing of ImportCmd::run
+pub fn run_import_fmt(input: &str, format: import::Format, entry: &config::ConfigEntry) -> ImpObs {
     let r = std::panic::catch_unwind(|| {
-        let txns = match import::import(csv.as_bytes(), import::Format::Csv, entry) {
+        let txns = match import::import(input.as_bytes(), format, entry) {
             Ok(t) => t,
             Err(e) => return ImpObs::Err(import_err_code(&e), format!("{}", e)),
         };
@@ -1013,4 +1018,76 @@ pub fn gen_empty_group_rules(r: &mut Rng, payee: &str) -> Vec<Rule> {
         conversion: None,
     };
     vec![a, b]
+}
+
+// ---------------------------------------------------------------- numbers okane cannot read
+
+/// digits of (m, scale) as integer part and fraction part
+fn int_frac(m: u64, scale: u32) -> (String, String) {
+    let digits = m.to_string();
+    let digits = if digits.len() <= scale as usize { format!("{}{}", "0".repeat(scale as usize + 1 - digits.len()), digits) } else { digits };
+    let (ip, fp) = digits.split_at(digits.len() - scale as usize);
+    (ip.to_string(), fp.to_string())
+}
+
+fn group_with(ip: &str, sep: &str) -> String {
+    let b = ip.as_bytes();
+    let mut o = String::new();
+    for (i, ch) in b.iter().enumerate() {
+        if i > 0 && (b.len() - i) % 3 == 0 {
+            o.push_str(sep);
+        }
+        o.push(*ch as char);
+    }
+    o
+}
+
+/// The figure (neg, m, scale) as statements of other banks and locales write it: notations
+/// okane's number grammar does not know (apostrophe / space / no-break-space grouping, decimal
+/// comma, a trailing minus, accounting parentheses, a leading plus, Indian grouping, an exponent)
+/// or a number followed by junk (`12.50*`, `5 USD EUR`, `12..5`).  Returns the cell text, a tag for
+/// the statistics, and whether a reader of the statement would still take the cell to say exactly
+/// (neg, m, scale) (false for `--5` and `12..5`, which say nothing definite).  The importer must
+/// either refuse the statement or book exactly that figure (`12.5x` is a number with the
+/// commodity `x`) - never a different one.
+pub fn foreign_number(r: &mut Rng, neg: bool, m: u64, scale: u32) -> (String, &'static str, bool) {
+    let (ip, fp) = int_frac(m, scale);
+    let minus = if neg { "-" } else { "" };
+    let plain = if scale > 0 { format!("{}.{}", ip, fp) } else { ip.clone() };
+    for _ in 0..40 {
+        match r.below(16) {
+            0 | 1 if ip.len() > 3 => return (format!("{}{}{}", minus, group_with(&ip, "'"), if scale > 0 { format!(".{}", fp) } else { String::new() }), "junk:apostrophe grouping 6'540.35", true),
+            2 if ip.len() > 3 => return (format!("{}{}{}", minus, group_with(&ip, " "), if scale > 0 { format!(".{}", fp) } else { String::new() }), "junk:space grouping 1 234.56", true),
+            3 if ip.len() > 3 => return (format!("{}{}{}", minus, group_with(&ip, "\u{a0}"), if scale > 0 { format!(".{}", fp) } else { String::new() }), "junk:no-break space grouping", true),
+            4 | 5 if neg => return (format!("{}-", plain), "junk:trailing minus 12.50-", true),
+            6 if neg => return (format!("({})", plain), "junk:accounting parentheses (12.50)", true),
+            7 if !neg => return (format!("+{}", plain), "junk:leading plus +12.50", true),
+            8 if scale > 0 && ip.len() > 3 => return (format!("{}{},{}", minus, group_with(&ip, "."), fp), "junk:continental 1.234,56", true),
+            9 if scale > 0 && scale != 3 && ip.len() <= 3 => return (format!("{}{},{}", minus, ip, fp), "junk:decimal comma 12,50", true),
+            10 => {
+                let k = r.below(plain.len() as u64) as usize;
+                let t = if scale > 0 { plain.replacen('.', "..", 1) } else { format!("{}..{}", &plain[..k.max(1)], &plain[k.max(1)..]) };
+                return (format!("{}{}", minus, t), "junk:two dots 12..5", false);
+            }
+            11 => return (format!("{}{}{}", minus, plain, r.pick(&["*", " *", " EUR*", " (pending)", "?", " CHF 1", "/1"])), "junk:trailing annotation 12.50*", true),
+            12 => return (format!("{}{} {} {}", minus, plain, r.pick(&["USD", "CHF"]), r.pick(&["EUR", "JPY"])), "junk:two commodities 5 USD EUR", true),
+            13 => return (format!("{}{}{}", minus, plain, r.pick(&["x", "CHF", " Fr"])), "junk:letters after the digits 12.5x (a commodity)", true),
+            14 if neg => return (format!("--{}", plain), "junk:two minus signs --5", false),
+            15 if ip.len() > 5 => {
+                // Indian grouping: the last three digits, then groups of two
+                let (head, tail) = ip.split_at(ip.len() - 3);
+                let hb = head.as_bytes();
+                let mut h = String::new();
+                for (i, ch) in hb.iter().enumerate() {
+                    if i > 0 && (hb.len() - i) % 2 == 0 {
+                        h.push(',');
+                    }
+                    h.push(*ch as char);
+                }
+                return (format!("{}{},{}{}", minus, h, tail, if scale > 0 { format!(".{}", fp) } else { String::new() }), "junk:Indian grouping 1,23,456.78", true);
+            }
+            _ => {}
+        }
+    }
+    (format!("{}{}e0", minus, plain), "junk:exponent 1.5e0", true)
 }
